@@ -14,11 +14,11 @@ build() {
   local newest
   newest=$(find "$VERIF/checker" -name '*.go' -newer "$BIN" 2>/dev/null | head -1)
   if [ ! -x "$BIN" ] || [ -n "$newest" ] || [ "$VERIF/checker/go.mod" -nt "$BIN" ]; then
-    (cd "$VERIF/checker" && go build -o "$BIN" ./cmd/s2scheck) || { echo "checker build failed"; exit 2; }
+    (cd "$VERIF/checker" && go build -o "$BIN.new.$$" ./cmd/s2scheck && mv -f "$BIN.new.$$" "$BIN") || { rm -f "$BIN.new.$$"; echo "checker build failed"; exit 2; }
   fi
 }
 case "${1:-}" in
-  build) rm -f "$BIN"; build; exit 0 ;;
+  build) touch -d '2000-01-01' "$BIN" 2>/dev/null; build; exit 0 ;;
   explain) build; exec "$BIN" -repo "$REPO" -verif "$VERIF" -explain "$2" ;;
   "") echo "usage: run.sh <id> quick|thorough | explain <replay> | build"; exit 2 ;;
   *) build; exec "$BIN" -repo "$REPO" -verif "$VERIF" -prop "$1" -tier "${2:-quick}" ;;
